@@ -285,7 +285,7 @@ func runC31(c *fw.Ctx) {
 		return
 	}
 	sigma := []string{"a", "\r", "\n", "\x00", "\x01", "\x7f", "\x1a"}
-	maxLen := c.Pick(5, 6)
+	maxLen := c.Pick(4, 6)
 	var ins []c31Input
 	// threshold family: printable>>7 >= nonprintable
 	for _, pk := range [][2]int{{127, 1}, {128, 1}, {129, 1}, {255, 2}, {256, 2}, {257, 2}, {383, 3}, {384, 3}} {
@@ -301,7 +301,7 @@ func runC31(c *fw.Ctx) {
 				default:
 					body = p + k
 				}
-				ins = append(ins, c31Input{fmt.Sprintf("threshold(%d printable,%d control %s)+%q", pk[0], pk[1], pos, eol), body + eol + "b" + eol})
+				ins = append(ins, c31Input{fmt.Sprintf("threshold(%d printable,%d control %s)+%q", pk[0], pk[1], pos, eol), body + eol + eol})
 			}
 		}
 	}
@@ -315,6 +315,12 @@ func runC31(c *fw.Ctx) {
 		for _, eol := range []string{"\n", "\r\n"} {
 			ins = append(ins, c31Input{fmt.Sprintf("eol-at-%d+%q", off, eol), strings.Repeat("a", off) + eol + "b" + eol + strings.Repeat("c", 40000) + eol})
 		}
+	}
+	// CRLF at every third byte in three phases: whatever the chunk size of the
+	// copy loop (file reads, inflate window minus object header, ...), one phase
+	// has a CR LF pair split across two writes
+	for shift := 0; shift < 3; shift++ {
+		ins = append(ins, c31Input{fmt.Sprintf("crlf-every-3-bytes phase %d", shift), strings.Repeat("x", shift) + strings.Repeat("a\r\n", 30000)})
 	}
 	nFam := len(ins) // the families come first so that a run cut short still covers them
 	for _, s := range fw.Strings(sigma, maxLen) {
@@ -341,7 +347,12 @@ func runC31(c *fw.Ctx) {
 	var mu sync.Mutex
 	var frs []failRec
 	noRT := 0
+	var cut sync.Once
 	c.ParDo(nb*len(c31Modes), 0, func(j int) {
+		if c.Expired() { // few, heavy units: honour the deadline per unit
+			cut.Do(func() { c.Incomplete("internal deadline reached before all batch x mode units ran") })
+			return
+		}
 		b, mode := j/len(c31Modes), j%len(c31Modes)
 		if b > 0 { // batch 0 (the families) first, the rest spread over the space
 			b = 1 + hSpread(b-1, nb-1)
@@ -371,6 +382,15 @@ func runC31(c *fw.Ctx) {
 		}
 	})
 	c.Extra("strings_git_itself_does_not_round_trip", noRT)
+	if os.Getenv("VERIF_C31_DUMP") != "" { // triage aid
+		for _, fr := range frs {
+			n := fr.in.name
+			if n == "" {
+				n = fw.Q(fr.in.data)
+			}
+			fmt.Printf("FAIL-ITEM %s :: %s\n", n, fr.item)
+		}
+	}
 
 	// group by (item, shape) and minimise the first string of every group; a
 	// failing family string (too long to minimise) joins the enumerated group
